@@ -193,6 +193,9 @@ type Knobs struct {
 	// sentinel); FreeFailAll fails every construction
 	FreeFailNew []int `json:"freeFailNew,omitempty"`
 	FreeFailAll bool  `json:"freeFailAll,omitempty"`
+	// free-running mode only: the k-th WriteTo of every handle fails (the error paths of the senders
+	// run while the receivers are looking replies up)
+	FreeFailWrite int `json:"freeFailWrite,omitempty"`
 	FreshCache  bool  `json:"freshCache,omitempty"` // false keeps the cache of the previous call in the same scenario only
 }
 
